@@ -543,12 +543,83 @@ def check_rotation_chain_order(ctx: Check, tree: Tree) -> None:
                 None if not down else f"the chain is walked downwards (`{unparse(src)[:50]}`): the non-commuting rotations are multiplied in reversed order")
 
 
+def check_wigner_angle_table(ctx: Check, tree: Tree) -> None:
+    """R-TABLE: compute_wigner_angles implements Eqs. (B.2-4) of Marangotto (2019), the reference the
+    docstring names: with R = compute_wigner_rotation_matrix(topology, momenta, state_id) and the
+    Lorentz indices (0, 1, 2, 3) = (t, x, y, z):
+        alpha = atan2(R[3,2], R[3,1]),  beta = acos(R[3,3]),  gamma = atan2(R[2,3], -R[1,3]);
+    the three angles are named alpha/beta/gamma + helicity suffix of the same state."""
+    from ..inline import Inliner
+
+    fn = tree.func("ampform.kinematics.angles::compute_wigner_angles")
+    rd = RD(fn.node)
+    inl = Inliner(fn.node, rd)
+    rets = [r for r in walk_function(fn.node, nested=False) if isinstance(r, ast.Return) and r.value is not None]
+    if len(rets) != 1:
+        raise AnalysisError(f"{fn.qual}: expected one return")
+    val = rets[0].value
+    if isinstance(val, ast.Name):
+        defs = list(rd.reaching(val))
+        val = defs[0].value if len(defs) == 1 and isinstance(defs[0].value, ast.AST) else val
+    if not isinstance(val, ast.Dict) or len(val.keys) != 3:
+        raise AnalysisError(f"{fn.qual}: does not return a dict of three angles")
+
+    def element(node):
+        """(sign, row, col) of +-ArraySlice(R, (slice(None), row, col)) with R the Wigner rotation matrix"""
+        sign = 1
+        node = inl.expr(node)
+        if isinstance(node, ast.UnaryOp) and isinstance(node.op, ast.USub):
+            sign, node = -1, inl.expr(node.operand)
+        if not (isinstance(node, ast.Call) and unparse(node.func).endswith("ArraySlice") and len(node.args) == 2):
+            return None
+        base, idx = inl.expr(node.args[0]), node.args[1]
+        if not (isinstance(base, ast.Call) and tree.resolve(fn.module, base.func, fn) == "ampform.kinematics.angles::compute_wigner_rotation_matrix"):
+            return None
+        if [unparse(a) for a in base.args] != fn.params[:3]:
+            return None
+        if not (isinstance(idx, ast.Tuple) and len(idx.elts) == 3 and unparse(idx.elts[0]) == "slice(None)" and all(isinstance(e, ast.Constant) for e in idx.elts[1:])):
+            return None
+        return (sign, idx.elts[1].value, idx.elts[2].value)
+
+    want = {
+        "alpha": ("atan2", [(1, 3, 2), (1, 3, 1)]),
+        "beta": ("acos", [(1, 3, 3)]),
+        "gamma": ("atan2", [(1, 2, 3), (-1, 1, 3)]),
+    }
+    # which key is which angle: by position in the symbols() call / by the name stem
+    names = []
+    for k in val.keys:
+        defs = list(rd.reaching(k)) if isinstance(k, ast.Name) else []
+        stem = None
+        for d in defs:
+            if isinstance(d.value, ast.Call) and d.index is not None:
+                arg0 = d.value.args[0] if d.value.args else None
+                txt = "".join(str(v.value) if isinstance(v, ast.Constant) else "{}" for v in arg0.values) if isinstance(arg0, ast.JoinedStr) else (arg0.value if isinstance(arg0, ast.Constant) else "")
+                parts = txt.split()
+                if d.index < len(parts):
+                    stem = parts[d.index].split("{")[0]
+        names.append(stem)
+    if sorted(n or "" for n in names) != ["alpha", "beta", "gamma"]:
+        raise AnalysisError(f"{fn.qual}: angle symbols are {names}, expected alpha/beta/gamma + suffix")
+    for name, v in zip(names, val.values):
+        v = inl.expr(v)
+        func, args = want[name]
+        got = None
+        if isinstance(v, ast.Call) and unparse(v.func).split(".")[-1] == func and len(v.args) == len(args):
+            got = [element(a) for a in v.args]
+        ok = got == args
+        ctx.verdict(ok, "R-TABLE", f"{fn.qual}::{name}", tree.loc(rets[0]),
+                    f"Wigner rotation angle {name} = {func}(" + ", ".join(("-" if s < 0 else "") + f"R[{i},{j}]" for s, i, j in args) + ") (Marangotto 2019, B.2-4)",
+                    None if ok else {"code": unparse(v)[:120], "elements": got})
+
+
 def run(ctx: Check, tree: Tree) -> None:
     ctx.decided += [
         "no `.remove(x)` reachable in the package can raise: each is dominated by a membership test, inside a handler, or covered by a recorded structural invariant (R-GUARD)",
         "the PoolSum of a helicity/Wigner rotation ranges over create_spin_range(s) of the same s that is j of its Wigner-D, and every caller passes spin and masslessness of the rotated state (R-WIRING)",
         "create_spin_range loops from -s in steps of +1 while <= s (R-RANGE)",
         "DPD alignment: spin, helicity symbols, state index and pool of every Wigner-d refer to the same outer state (R-WIRING)",
+        "compute_wigner_angles extracts (alpha, beta, gamma) from the Wigner rotation matrix as in Marangotto (2019) B.2-4 (R-TABLE)",
         "axis-angle chain: the k-th index pair carries the angles of the k-th state on the way up from the rotated state (R-CHAINORDER)",
         "no memoised mutable result of helicity.align (e.g. a cached spin range) is written by any caller (R-CACHE)",
         "DPD alignment: every term reaching the PoolSum summand is base[summation indices] times one rotation per outer state (R-SUMMAND)",
@@ -563,5 +634,6 @@ def run(ctx: Check, tree: Tree) -> None:
     ctx.section(check_spin_range, ctx, tree)
     ctx.section(check_dpd_wiring, ctx, tree)
     ctx.section(check_rotation_chain_order, ctx, tree)
+    ctx.section(check_wigner_angle_table, ctx, tree)
     ctx.section(check_dpd_summand, ctx, tree)
     ctx.section(check_spin_range_not_cached_mutable, ctx, tree)
